@@ -1164,6 +1164,8 @@ fn c16_geometry(ctx: &mut Ctx, label: &str, m0: BMap, val_lens: Vec<u32>, limit:
     updates.push(Letter { kind: L_PUT, map: 1, handle: H_FIRST, key: 0, val: 0 });
     // a successful flush inside the history: what is updated after it must be written by the next one
     updates.push(Letter { kind: L_FLUSH, map: 0, handle: H_FIRST, key: 0, val: 0 });
+    // an overwrite that fits the slot of the value it replaces (other bytes, same slot): only bytes inside a record change
+    updates.push(Letter { kind: L_PUT, map: 0, handle: H_FIRST, key: 0, val: 2 });
     let nu = updates.len();
     let mut letters = updates;
     for k in [L_FLUSH, L_SYNC_DATA, L_SYNC_ALL, L_DB_SYNC_ALL, L_DB_SYNC_DATA] {
@@ -1269,9 +1271,9 @@ pub fn c16(tier: &str, seed: u64) -> i32 {
     let mut complete = true;
     let deep = if thorough { 4 } else { 2 };
     let geoms: Vec<(&str, BMap, Vec<u32>, usize)> = vec![
-        ("table file largest (65536 buckets)", std_map(KtId::Bytes, 65536, 2, 9, seed, "m"), vec![6, 300_000], deep),
-        ("value file largest (16 buckets, 300000-byte values)", std_map(KtId::Bytes, 16, 2, 9, seed, "m"), vec![6, 300_000], if thorough { 4 } else { 3 }),
-        ("key file largest (16 buckets, 3000-byte keys)", std_map(KtId::Bytes, 16, 2, 3000, seed, "m"), vec![1, 9], if thorough { 4 } else { 3 }),
+        ("table file largest (65536 buckets)", std_map(KtId::Bytes, 65536, 2, 9, seed, "m"), vec![6, 300_000, 7], deep),
+        ("value file largest (16 buckets, 300000-byte values)", std_map(KtId::Bytes, 16, 2, 9, seed, "m"), vec![6, 300_000, 7], if thorough { 4 } else { 3 }),
+        ("key file largest (16 buckets, 3000-byte keys)", std_map(KtId::Bytes, 16, 2, 3000, seed, "m"), vec![1, 9, 2], if thorough { 4 } else { 3 }),
     ];
     let per = if thorough { 900.0 } else { 25.0 };
     for (label, m0, vl, max_u) in geoms {
